@@ -141,6 +141,8 @@ InitHist == [mm \in Machines |-> [last |-> MD(mm).init]]
 \* ghost bookkeeping used only by the property formulas (Props.tla)
 LedgerKeys == {<<mm, st>> : mm \in Machines, st \in UNION {StatesOf(m2) : m2 \in Machines}} \cup {<<Def.root, Def.root>>}
 QPayloads(sq) == {sq[k].occ.p : k \in 1..Len(sq)}
+\* number of stored occurrences whose event type counts its live objects (C20)
+CountedIn(sq) == Cardinality({k \in 1..Len(sq) : sq[k].occ.t \in Def.counted})
 PoolPayloads(sq) == {sq[k].occ.p : k \in {kk \in 1..Len(sq) : sq[kk].kind = "ev" /\ ~sq[kk].marked}}
 
 (* --algorithm MSM {
@@ -664,7 +666,7 @@ M0: while (TRUE) {
           gvmemo := [gg \in Def.guards |-> "u"];
           lastcall := [op |-> "none", i |-> 0, e |-> "", p |-> 0]; pre := [blocked |-> FALSE, quiet |-> TRUE, act |-> <<>>, all |-> <<active, mq, dq, pool, hist, running>>];
        } or {
-          await Mode = "trace" /\ HasLine /\ CurLine.k = "end";
+          await Mode = "trace" /\ HasLine /\ CurLine.k = "end" /\ CurLine.live = 0 /\ CurLine.bad = 0;    \* every stored copy destroyed exactly once
           l := l + 1; wasreset := TRUE; obs := <<>>;
           lastcall := [op |-> "none", i |-> 0, e |-> "", p |-> 0];
        } or {
@@ -724,6 +726,17 @@ M0: while (TRUE) {
              else { call PoolM(cc.i, Def.root, IF cc.op = "drain1" THEN 1 ELSE 0); };
           };
        } or {
+          \* destruction of a machine object: everything it still holds goes away with it
+          with (ii \in IF Mode = "trace" THEN (IF HasLine /\ CurLine.k = "call" /\ CurLine.op = "destroy" THEN {CurLine.i} ELSE {}) ELSE {}) {
+             l := l + 1; ncalls := ncalls + 1; cbn := 0; obs := <<>>; wasreset := FALSE;
+             lastcall := [op |-> "destroy", i |-> ii, e |-> "", p |-> 0];
+             running[ii] := [mm \in Machines |-> FALSE]; processing[ii] := [mm \in Machines |-> FALSE];
+             mq[ii] := [mm \in Machines |-> <<>>]; dq[ii] := [mm \in Machines |-> <<>>]; pool[ii] := [mm \in Machines |-> <<>>];
+             active[ii] := [mm \in Machines |-> MD(mm).init]; hist[ii] := InitHist; curseq[ii] := [mm \in Machines |-> 0]; seqcnt[ii] := [mm \in Machines |-> 0];
+             ledger[ii] := [kk \in LedgerKeys |-> 0]; used[ii] := FALSE;
+             ret := 0;
+          };
+       } or {
           \* copy construction / copy assignment of a quiescent machine: instance j becomes a copy of instance i
           with (cc \in IF Mode = "trace" THEN (IF HasLine /\ CurLine.k = "call" /\ CurLine.op \in {"copy", "assign"} THEN {[i |-> CurLine.i, j |-> CurLine.j, op |-> CurLine.op]} ELSE {})
                        ELSE {cx \in {[i |-> ii, j |-> jj, op |-> oo] : ii \in {kk \in Insts : running[kk][Def.root]}, jj \in Insts, oo \in {"copy", "assign"} \cap Apis} :
@@ -742,7 +755,11 @@ M0: while (TRUE) {
           };
        };
 M1:    if (Mode = "trace" /\ ~wasreset) {
-          await HasLine /\ CurLine.k = "ret" /\ ~CurLine.esc
+          await HasLine /\ CurLine.k = "ret" /\ ~CurLine.esc /\ CurLine.bad = 0
+                /\ (LET held == IF IsB THEN [ii \in Insts |-> [mm \in Machines |-> CountedIn(mq[ii][mm]) + CountedIn(dq[ii][mm])]]
+                                 ELSE [ii \in Insts |-> [mm \in Machines |-> CountedIn(SelectSeq(pool[ii][mm], LAMBDA pe : pe.kind = "ev" /\ ~pe.marked))]]
+                         tot[ss \in SUBSET (Insts \X Machines)] == IF ss = {} THEN 0 ELSE LET x == CHOOSE y \in ss : TRUE IN held[x[1]][x[2]] + tot[ss \ {x}]
+                     IN IF IsB THEN CurLine.live = tot[Insts \X Machines] ELSE CurLine.live >= tot[Insts \X Machines])
                 /\ (IF lastcall.op = "pe" THEN (CurLine.rv % 2) = (ret % 2) /\ ((CurLine.rv = 0) <=> (ret = 0)) ELSE TRUE)
                 /\ (IF running[lastcall.i][Def.root]
                     THEN /\ DOMAIN CurLine.st = ActiveTree(lastcall.i, Def.root)
